@@ -273,6 +273,8 @@ class T:
         st.pc = list(self.pre)
         st.frames.append(Frame(fref.module))
         st.roots["inputs"] = {k: d.sym for k, d in self.inputs.items() if not isz(d.sym)}
+        st.roots["self"] = self_val
+        st.roots["args"] = [a for a in args if not isz(a)]
         self.ctx.touch(fref)
         kwargs = dict(kwargs or {})
         self.last_call = {"relpath": relpath, "qualname": qualname, "args": list(args), "kwargs": kwargs,
@@ -306,7 +308,8 @@ class T:
         """pre /\\ facts /\\ assumptions => goal."""
         if isinstance(goal, bool):
             goal = z3.BoolVal(goal)
-        asm = (list(self.pre) if use_pre else []) + list(self.ctx.facts) + list(assumptions)
+        base = (list(self.pre) if use_pre else []) + list(assumptions)
+        asm = base + relevant_facts(self.ctx.facts, base + [goal])
         res = solve.check_valid(asm, goal, timeout_ms or self.timeout_ms, tactic=tactic)
         extra = {}
         if res["status"] == "failed":
@@ -339,10 +342,19 @@ class T:
         """Planted obligation that must NOT verify: `pre => False` has to come back with a model."""
         res = solve.check_valid(list(self.pre) + list(self.ctx.facts), z3.BoolVal(False), self.timeout_ms,
                                 use_cvc5=False)
+        if res["status"] == "unknown":
+            # satisfiability modulo functional consistency of real-valued library functions
+            cache, names = {}, {}
+            s2 = z3.Solver()
+            s2.set("timeout", int(self.timeout_ms))
+            for a in list(self.pre) + list(self.ctx.facts):
+                s2.add(solve.abstract_ufs(a, cache, names))
+            if s2.check() == z3.sat:
+                res = {"status": "failed", "backend": "z3 (UF terms as constants)", "seconds": res.get("seconds")}
         ok = res["status"] == "failed"
         rr = {"status": "proved" if ok else ("unknown" if res["status"] == "unknown" else "failed"),
               "backend": res.get("backend"), "seconds": res.get("seconds"),
-              "detail": "planted-false is refuted as expected" if ok else "precondition is vacuous"}
+              "detail": "planted-false is refuted as expected" if ok else ("precondition is vacuous" if res["status"] == "proved" else "could not decide satisfiability of the precondition: %s" % res.get("detail"))}
         return self._record(clause, "vacuity", rr)
 
     def no_raise(self, paths, clause="no-raise", allowed=None):
@@ -502,6 +514,57 @@ class T:
         if isinstance(v, (tuple, list)):
             return "(" + ", ".join(self._val_src(me, x) for x in v) + ("," if len(v) == 1 else "") + ")"
         raise Unsupported("result not concretisable")
+
+
+def _syms(e, cache):
+    k = e.get_id()
+    if k in cache:
+        return cache[k]
+    out = set()
+    stack = [e]
+    seen = set()
+    while stack:
+        x = stack.pop()
+        if x.get_id() in seen:
+            continue
+        seen.add(x.get_id())
+        if z3.is_quantifier(x):
+            stack.append(x.body())
+            continue
+        if z3.is_app(x):
+            d = x.decl()
+            if d.kind() == z3.Z3_OP_UNINTERPRETED:
+                if x.num_args() == 0:
+                    out.add(d.name())
+                else:
+                    # a UF application is identified by the whole term (sqrt(2) vs sqrt(x))
+                    out.add("@%d" % x.get_id())
+            stack.extend(x.children())
+    cache[k] = out
+    return out
+
+
+def relevant_facts(facts, seeds):
+    """Axiom instances (sqrt etc.) that share a symbol or UF term, transitively, with the query."""
+    cache = {}
+    live = set()
+    for s_ in seeds:
+        live |= _syms(s_, cache)
+    remaining = [(f, _syms(f, cache)) for f in facts]
+    out = []
+    changed = True
+    while changed:
+        changed = False
+        rest = []
+        for f, sy in remaining:
+            if sy & live:
+                out.append(f)
+                live |= sy
+                changed = True
+            else:
+                rest.append((f, sy))
+        remaining = rest
+    return out
 
 
 def run_task(full_name, tier, timeout_ms):
